@@ -197,11 +197,23 @@ func checkC08(c c08Case, rec *Rec) *Violation {
 	return nil
 }
 
-var c08Patterns = []string{"||example.org^", "example", "|http://example.org/", "||example.org/ads/*", "example.org/", "||google.com^", "/ads/x", "||a.com^"}
+var c08Patterns = []string{"||example.org^", "example", "|http://example.org/", "||example.org/ads/*", "example.org/", "||google.com^", "/ads/x", "||a.com^", "ab", "-ad-", "/x"} // the last three are too short for the shortcut index
 
 func c08Mutate(t *rapid.T, m NetModel) NetModel {
 	y := m
-	switch rapid.IntRange(0, 11).Draw(t, "mutation") {
+	switch rapid.IntRange(0, 12).Draw(t, "mutation") {
+	case 12:
+		// no rewrite against an empty rewrite (and the reverse): another rule
+		switch {
+		case m.Rewrite == nil && m.Exc:
+			e := pick(t, "empty-rewrite", []string{"", "NOERROR", "NOERROR;;"})
+			y.Rewrite = &e
+		case m.Rewrite == nil:
+			e := pick(t, "empty-rewrite-b", []string{"NOERROR", "NOERROR;;"})
+			y.Rewrite = &e
+		default:
+			y.Rewrite = nil
+		}
 	case 11:
 		// $match-case against $~match-case (or nothing against $~match-case): another rule
 		y.MC = false
